@@ -666,15 +666,35 @@ class Emitter:
         return None
 
 
-def proc_def(M, name):
+def proc_def(M, name, doc=""):
     params, _ = M.defs[name]
     arrays, scal, assigned, value = M.procinfo(name)
+    body = M.body(name)
+    if len(body) > 1 and not assigned and all(st[0] == "call" and M.classify(st[1]) == "proc" for st in body):
+        # a sequence of macro statements (RX_8): one definition per statement, the macro is their composition
+        sig = ""
+        if arrays:
+            sig += f" ({' '.join(arrays)} : List UInt32)"
+        if scal:
+            sig += f" ({' '.join(scal)} : UInt32)"
+        if params:
+            sig += f" ({' '.join(params)} : UInt32)"
+        args = "".join(" " + a for a in arrays + scal + params)
+        out, comp = "", []
+        for k, st in enumerate(body, 1):
+            e = Emitter(M, env={p: p for p in params})
+            e.expr(st)
+            e.flush()
+            out += (f"/-- statement {k} of `{name}` -/\ndef {name}_{k}{sig} (st0 : RS) : RS :=\n" +
+                    "".join(f"  {l}\n" for l in e.lines) + f"  {e.st}\n\n")
+            comp.append(f"  let st{k} := {name}_{k}{args} st{k - 1}\n")
+        return out + doc + f"def {name}{sig} (st0 : RS) : RS :=\n" + "".join(comp) + f"  st{len(body)}\n"
     e = Emitter(M, env={p: p for p in params})
     val = None
     for st in M.body(name):
         val = e.expr(st)
         e.flush()
-    sig = f"def {name}"
+    sig = doc + f"def {name}"
     if arrays:
         sig += f" ({' '.join(arrays)} : List UInt32)"
     if scal:
@@ -797,6 +817,25 @@ class FuncGen:
         self.all_counters = set(counters)
         self.defs = []
         self.nloop = 0
+        self.top = None             # the emitter of the function's top level
+        self.nseg, self.seg_from, self.seg_in = 0, 0, "st0"
+
+    def close_segment(self, e):
+        """straight-line code of the top level between two loops becomes a definition of its own
+        (`<function>_seg<n>`), so that the function is a composition of segments and loops"""
+        e.flush()
+        lines = e.lines[self.seg_from:]
+        if lines:
+            self.nseg += 1
+            name = f"{self.fname}_seg{self.nseg}"
+            imm = "".join(f" ({a} : List UInt32)" for a in self.immut)
+            args = "".join(" " + a for a in self.immut)
+            self.defs.append(f"/-- straight-line segment {self.nseg} of `{self.fname}` -/\n"
+                             f"def {name}{imm} ({self.seg_in} : RS) : RS :=\n" + "".join(f"  {l}\n" for l in lines) + f"  {e.st}\n\n")
+            new = e.fresh("st")
+            e.lines[self.seg_from:] = [f"let {new} := {name}{args} {self.seg_in}"]
+            e.st = new
+        self.seg_from, self.seg_in = len(e.lines), e.st
 
     def stmt(self, s, e):
         k = s[0]
@@ -845,10 +884,14 @@ class FuncGen:
                          f"def {name}{imm}{cnt} (st0 : RS) : RS :=\n"
                          f"  if {v} < {bound} then {name}{args} ({v} + {inc}) ({name}_body{args} {v} st0) else st0\n"
                          f"termination_by {bound} - {v}\n\n")
+        if e is self.top:
+            self.close_segment(e)
         e.flush()
         new = e.fresh("st")
         e.lines.append(f"let {new} := {name}{args} {start} {e.st}")
         e.st = new
+        if e is self.top:
+            self.seg_from, self.seg_in = len(e.lines), e.st
 
 
 def strip_comments(text):
@@ -907,9 +950,12 @@ def transform_function(M, code):
             raise Untranslatable(f"Transform assigns `{a}`, which is not a local scalar")
     fg = FuncGen(M, "Transform", immut, counters)
     e = Emitter(M, hidden=counters)
+    fg.top = e
     for x in items:
         fg.stmt(x, e)
     e.flush()
+    if fg.nloop:
+        fg.close_segment(e)
     imm = "".join(f" ({a} : List UInt32)" for a in immut)
     text = re.sub(r"\s+", " ", body).strip()
     fg.defs.append(f"/-- `Sha256::Private::Transform({params.strip()})`: `{text}`.\n"
@@ -1050,9 +1096,9 @@ def generate(repo, defines=(), ns="Sha256", suffix=""):
                "structure RS where\n" +
                "".join(f"  {a} : List UInt32\n" for a in M.arrays) + "".join(f"  {a} : UInt32\n" for a in M.scalars) + "  ok : Bool\n\n")
     for name in procs:
-        out.append(f"/-- `#define {name}({','.join(defs[name][0])}) {defs[name][1]}`" +
-                   ("  (register macros: " + "; ".join(f"{r}(i) = {defs[r][1]}" for r in "abcdefgh") + ")" if name == "R" and not unroll2 else "") + " -/\n")
-        out.append(proc_def(M, name) + "\n")
+        doc = (f"/-- `#define {name}({','.join(defs[name][0])}) {defs[name][1]}`" +
+               ("  (register macros: " + "; ".join(f"{r}(i) = {defs[r][1]}" for r in "abcdefgh") + ")" if name == "R" and not unroll2 else "") + " -/\n")
+        out.append(proc_def(M, name, doc) + "\n")
     out += fdefs
     out.append(f"end Nstd.Generated.{ns}\n")
     return "".join(out)
